@@ -39,6 +39,14 @@ def namedForeignKeys : Dialect → Bool
   | .sqlite => false | _ => true
 
 def str (s : String) : Name := s.toList
+/-- the literal fragments of the name templates, as explicit character lists (kernel-friendly) -/
+def sPk : Name := ['p', 'k', '_']
+def sUnq : Name := ['u', 'n', 'q', '_']
+def sIdx : Name := ['i', 'd', 'x', '_']
+def sFk : Name := ['f', 'k', '_']
+def sU : Name := ['_']
+def sUU : Name := ['_', '_']
+def sU2 : Name := ['_', '2']
 
 def joinWith (sep : Name) : List Name → Name
   | [] => []
@@ -48,34 +56,34 @@ def joinWith (sep : Name) : List Name → Name
 /-- `get_default_index_name` (table names are plain strings here, so `base_name` is the identity) -/
 def defaultIndexName (d : Dialect) (tname : Name) (cols : List Name) (isPk isUnique m2m : Bool) : Name :=
   let raw :=
-    if isPk then str "pk_" ++ tname
-    else if isUnique then str "unq_" ++ tname ++ str "__" ++ joinWith (str "_") cols
-    else if m2m then str "idx_" ++ tname
-    else str "idx_" ++ tname ++ str "__" ++ joinWith (str "_") cols
+    if isPk then sPk ++ tname
+    else if isUnique then sUnq ++ tname ++ sUU ++ joinWith (sU) cols
+    else if m2m then sIdx ++ tname
+    else sIdx ++ tname ++ sUU ++ joinWith (sU) cols
   normalizeName d (lower raw)
 
 /-- `get_default_fk_name` -/
 def defaultFkName (d : Dialect) (child : Name) (cols : List Name) : Name :=
-  normalizeName d (lower (str "fk_" ++ child ++ str "__" ++ joinWith (str "__") cols))
+  normalizeName d (lower (sFk ++ child ++ sUU ++ joinWith (sUU) cols))
 
 /-- `get_default_entity_table_name` -/
 def defaultEntityTableName (d : Dialect) (ent : Name) : Name := normalizeName d ent
 
 /-- `get_default_m2m_table_name` -/
 def defaultM2mTableName (d : Dialect) (ent attr revEnt : Name) (symmetric : Bool) : Name :=
-  normalizeName d (if symmetric then ent ++ str "_" ++ attr else ent ++ str "_" ++ revEnt)
+  normalizeName d (if symmetric then ent ++ sU ++ attr else ent ++ sU ++ revEnt)
 
 /-- `get_default_column_names(attr, reverse_pk_columns)` -/
 def defaultColumnNames (d : Dialect) (attr : Name) : Option (List Name) → List Name
   | none => [normalizeName d attr]
   | some [_] => [normalizeName d attr]
-  | some cols => cols.map (fun c => normalizeName d (attr ++ str "_" ++ c))
+  | some cols => cols.map (fun c => normalizeName d (attr ++ sU ++ c))
 
 /-- `get_default_m2m_column_names(entity)` with `columns = entity._get_pk_columns_()` -/
 def defaultM2mColumnNames (d : Dialect) (ent : Name) (pkCols : List Name) : List Name :=
   match pkCols with
   | [_] => [normalizeName d (lower ent)]
-  | cols => cols.map (fun c => normalizeName d (lower ent ++ str "_" ++ c))
+  | cols => cols.map (fun c => normalizeName d (lower ent ++ sU ++ c))
 
 /-! ### the schema registries -/
 
@@ -161,9 +169,12 @@ def addTable (s : Schema) (name : Name) (src : Src) (entity : Option (Name × Na
 def updTable (s : Schema) (n : Name) (f : Table → Table) : Schema :=
   { s with tables := s.tables.map (fun t => if t.name == n then { f t with name := t.name } else t) }
 
-/-- `Table.add_entity` -/
+/-- `Table.add_entity`: the hierarchy check, then `assert '_table_options_' not in entity.__dict__`
+    (`_check_table_options_` has put `_table_options_` into the `__dict__` of every root entity, so the assertion
+    fails exactly for root entities — reachable when the table has no entities, i.e. is a many-to-many table) -/
 def addEntity (s : Schema) (t : Table) (ent root : Name) : Except Err Schema :=
   if t.entities ≠ [] ∧ t.root ≠ some root then .error ⟨"MappingError", "different-hierarchy"⟩
+  else if ent = root then .error ⟨"AssertionError", "table-options-of-root-entity"⟩
   else .ok (updTable s t.name (fun t => { t with entities := t.entities ++ [ent], root := some root }))
 
 /-- `Column.__init__` -/
